@@ -92,6 +92,10 @@ def runOp (args impl : List String) : Option (String × String) := do
       else if n "evals" < 1 ∧ arg "mode" "constant" ≠ "users" ∧ arg "mode" "constant" ≠ "file" ∧ ¬setupFailed then "FAIL no-immediate-evaluation"
       else if n "started" + res.getD 2 0 > n "sumrates" then "FAIL more-load-than-the-rate-values"
       else "ok"
+    else if prop = "C18" then
+      if n "progressAfter" ≠ 0 then "FAIL progress-function-invoked-or-still-executing-after-the-run-stopped-its-runner"
+      else if n "leak" ≠ 0 then "FAIL goroutine-of-the-runner-remains"
+      else "ok"
     else if prop = "C15" then
       if n "envBad" ≠ 0 then "FAIL stage-parameters-not-in-environment-while-triggering"
       else if out "envAfter" ≠ "clean" then "FAIL stage-parameters-remain-set-after-the-run"
